@@ -37,7 +37,7 @@ VARIABLES tid, l, verdict,
           dll,     \* c -> latest start of the keep-alive period + ka (re-armed in the poller)
           wait,    \* c -> consecutive loop tops with (request pending, thread free)
           exp,     \* c -> consecutive loop tops with the keep-alive time passed
-          late,    \* c -> the handler returned after the worker was told to stop
+          late,    \* c -> the handler returned, or its completion began to be published, after the worker was told to stop
           busy,    \* jobs in the executor (submitted, completion not yet done)
           acc, cls, stopping, termed
 vars == <<tid, l, verdict, st, pend, left, dl, dll, wait, exp, late, busy, acc, cls, stopping, termed>>
@@ -138,12 +138,16 @@ Step ==
                       ELSE dll
             /\ verdict' = "ok"
             /\ Same(<<st, pend, left, dl, wait, exp, late, busy, acc, cls, stopping, termed>>)
+       [] e.e = "fbegin" ->         \* finish_request (the future's done-callback) starts, in the pool thread: a stop
+                                    \* request that arrives while it runs may find the connection parked again
+            /\ late' = [late EXCEPT ![c] = late[c] \/ (st[c] = "keeping" /\ termed)]
+            /\ verdict' = "ok"
+            /\ Same(<<st, pend, left, dl, dll, wait, exp, busy, acc, cls, stopping, termed>>)
        [] e.e = "finish" ->
             /\ busy' = busy - 1 /\ verdict' = "ok"
             /\ st' = [st EXCEPT ![c] = IF st[c] = "keeping" THEN "idle" ELSE st[c]]
             /\ dll' = [dll EXCEPT ![c] = IF st[c] = "keeping" THEN e.now + C.ka ELSE dll[c]]
-            /\ late' = [late EXCEPT ![c] = late[c] \/ (st[c] = "keeping" /\ termed)]
-            /\ Same(<<pend, left, dl, wait, exp, acc, cls, stopping, termed>>)
+            /\ Same(<<pend, left, dl, wait, exp, late, acc, cls, stopping, termed>>)
        [] e.e = "cancel" ->
             /\ busy' = busy - 1 /\ verdict' = "ok"
             /\ st' = [st EXCEPT ![c] = IF st[c] = "handled" THEN "closing" ELSE st[c]]
